@@ -36,6 +36,7 @@ import (
 	banktypes "github.com/cosmos/cosmos-sdk/x/bank/types"
 	abci "github.com/tendermint/tendermint/abci/types"
 	tmproto "github.com/tendermint/tendermint/proto/tendermint/types"
+	dbm "github.com/tendermint/tm-db"
 )
 
 const appChainID = "verif-chain"
@@ -65,6 +66,7 @@ type plannedBlock struct {
 type appRun struct {
 	app    *c4eapp.App
 	ta     *TestApp
+	db     dbm.DB // the node's database: a restart builds a new application over it
 	users  []appUser
 	seqs   map[string]uint64
 	height int64
@@ -199,7 +201,22 @@ type blockObs struct {
 	beginEvts []abci.Event
 }
 
+// restart stops the node between two blocks and starts it again: a new application object over the same database, which loads
+// the last committed version. Whatever a module keeps outside the committed stores (memory stores, caches in keepers, package
+// variables of the old object) is gone, as after a process restart; the next block must come out as on a node that kept running.
+func (r *appRun) restart() {
+	app, _ := newBareAppOn(r.db)
+	r.app = app
+	r.ta.App = app
+}
+
 func (r *appRun) runBlock(pb plannedBlock, tracked []sdk.AccAddress, rep *Report, cid, bIdx int, record bool) (o blockObs) {
+	// one replica is restarted before a block of every history (the block is chosen from the case and block numbers only, so
+	// that nothing is drawn from the generator's stream); its traces must equal those of the replicas that kept running
+	if os.Getenv("VERIF_RESTART") == "1" && bIdx > 0 && (bIdx == 1+cid%3 || bIdx == 4+cid%5) {
+		r.restart()
+		rep.Count("app.node_restarts")
+	}
 	app := r.app
 	ta := r.ta
 	var sb strings.Builder
@@ -494,7 +511,7 @@ func newAppRun(genesis []byte, genTime time.Time, initialHeight int64, users []a
 		h = initialHeight
 	}
 	ta := &TestApp{App: app, Height: h, Time: genTime, ChainID: appChainID}
-	return &appRun{app: app, ta: ta, users: users, height: h}
+	return &appRun{app: app, ta: ta, users: users, height: h, db: lastBareDB}
 }
 
 func runAppCase(seed uint64, idx int, rep *Report, profile string, traceDir string) []string {
@@ -764,6 +781,7 @@ func runAppCase(seed uint64, idx int, rep *Report, profile string, traceDir stri
 	}
 	for bIdx, pb := range plan {
 		o := run.runBlock(pb, tracked, rep, idx, bIdx, true)
+		app = run.app // a restarted node is a new application object
 		rep.Ops++
 		if o.panicked != "" {
 			rep.Eval("C10.block_processing_no_panic", false, idx, bIdx, "panic: "+o.panicked)
